@@ -199,11 +199,112 @@ def run_case(case):
     return out
 
 
+def run_scenario(name, checker):
+    """small programs, all calls well-typed, run once with plain functions and once with the decorated ones: same transcript"""
+    import numpy as np
+    import typeguard, beartype
+    from jaxtyping import Float, jaxtyped
+    A = np.ndarray
+    tc = typeguard.typechecked if checker == "typeguard" else beartype.beartype
+
+    def program(dec):
+        log = []
+        if name == "loader":
+            # an ordinary function advances a generator made by a decorated generator function and KEEPS it (suspended) past its own return
+            @dec
+            def rows(data: Float[A, "n d"]):
+                for i in range(data.shape[0]):
+                    yield data[i]
+
+            class Loader:
+                @dec
+                def start(self, data: Float[A, "m d"]) -> Float[A, "d"]:
+                    self.it = rows(data)
+                    return next(self.it)
+
+                @dec
+                def more(self, scale: Float[A, "k"]) -> Float[A, "d"]:
+                    return next(self.it)
+            ld = Loader()
+            for step in (lambda: ld.start(np.zeros((3, 2), "float32")).shape, lambda: ld.more(np.zeros((5,), "float32")).shape,
+                         lambda: Loader().start(np.zeros((4, 7), "float32")).shape, lambda: ld.more(np.zeros((1,), "float32")).shape):
+                try:
+                    log.append(["ret", list(step())])
+                except BaseException as e:  # noqa
+                    log.append(["exc", type(e).__name__])
+        elif name == "helper_binds":
+            # a decorated function WITHOUT array annotations does a manual check in its body; the name it uses is also an axis of its caller
+            @dec
+            def workspace(k: int):
+                return isinstance(np.zeros((k,), "float32"), Float[A, "n"])
+
+            @dec
+            def f(x: Float[A, "b"], scratch: int) -> Float[A, "n"]:
+                workspace(scratch)
+                return np.zeros((5,), "float32")
+            for step in (lambda: f(np.zeros((3,), "float32"), 7).shape, lambda: f(np.zeros((3,), "float32"), 5).shape):
+                try:
+                    log.append(["ret", list(step())])
+                except BaseException as e:  # noqa
+                    log.append(["exc", type(e).__name__])
+        elif name == "alias_generator":
+            # one annotation object (a module-level alias) used by a decorated GENERATOR function and by ordinary functions: decorating
+            # the generator must not change what the alias means elsewhere
+            import typing
+            Vec = Float[A, "n"]
+
+            @dec
+            def repeat(x: Vec, k: int) -> typing.Iterator[Vec]:
+                for _ in range(k):
+                    yield x
+
+            @dec
+            def dot(x: Vec, y: Vec):
+                return 0
+
+            @dec
+            def double(x: Vec) -> Vec:
+                return np.concatenate([x, x])
+            for step in (lambda: dot(np.zeros((3,), "float32"), np.zeros((4,), "float32")), lambda: double(np.zeros((3,), "float32")).shape,
+                         lambda: dot(np.zeros((3,), "float32"), np.zeros((3,), "float32")), lambda: len(list(repeat(np.zeros((2,), "float32"), 2)))):
+                try:
+                    r = step()
+                    log.append(["ret", list(r) if isinstance(r, tuple) else r])
+                except BaseException as e:  # noqa
+                    log.append(["exc", type(e).__name__])
+        elif name == "union_greedy":
+            # two parameters annotated Union[Float "n", Float "n+1"]: x=(4,), y=(3,) has the consistent assignment n=3 (y: "n", x: "n+1")
+            import typing
+            U = typing.Union[Float[A, "n"], Float[A, "n+1"]]
+
+            @dec
+            def g(x: U, y: U):
+                return 0
+            for step in (lambda: g(np.zeros((4,), "float32"), np.zeros((3,), "float32")), lambda: g(np.zeros((3,), "float32"), np.zeros((4,), "float32")),
+                         lambda: g(np.zeros((3,), "float32"), np.zeros((5,), "float32"))):
+                try:
+                    log.append(["ret", step()])
+                except BaseException as e:  # noqa
+                    log.append(["exc", type(e).__name__])
+        return log
+    out = {"scenario": name, "checker": checker, "plain": program(lambda f: f), "wrapped": program(jaxtyped(typechecker=tc))}
+    if name == "union_greedy":
+        out["expected"] = [["ret", 0], ["ret", 0], ["exc", "TypeCheckError"]]
+    if name == "alias_generator":
+        out["expected"] = [["exc", "TypeCheckError"], ["exc", "TypeCheckError"], ["ret", 0], ["ret", 2]]
+    return out
+
+
 def main():
     req = json.load(sys.stdin)
     buf = io.StringIO()
     with contextlib.redirect_stdout(buf), contextlib.redirect_stderr(io.StringIO()), warnings.catch_warnings():
         warnings.simplefilter("ignore")
+        if "scenarios" in req:
+            print_later = [run_scenario(n, c) for n, c in req["scenarios"]]
+            sys.stdout = sys.__stdout__
+            print(json.dumps(print_later))
+            return
         res = []
         for c in req["cases"]:
             try:
